@@ -145,8 +145,9 @@ class Recorder:
         delays: Optional[Dict[str, Any]] = None,
         extra_actions: Optional[Dict[str, Any]] = None,
         extra_guards: Optional[Dict[str, Any]] = None,
+        missing_actions: Optional[List[str]] = None,
     ) -> MachineLogic:
-        actions: Dict[str, Any] = {n: self.marker(n) for n in action_names(cfg)}
+        actions: Dict[str, Any] = {n: self.marker(n) for n in action_names(cfg) if n not in (missing_actions or ())}
         if extra_actions:
             actions.update(extra_actions)
         g = {n: self.guard(n) for n in (guards or [])}
